@@ -152,30 +152,71 @@ func stripCtl(t []int) []int {
 	return out
 }
 
-func firstDiff(a, b []bmNode, path string) string {
+// diffAt describes the first difference between two forests: text, the differing attribute and the (expected) title there.
+type diffAt struct {
+	Text  string
+	Attr  string // count | title | page | bold | italic | colour
+	Title string
+}
+
+func firstDiffAt(a, b []bmNode, path string) *diffAt {
 	if len(a) != len(b) {
-		return fmt.Sprintf("%s: %d items expected, %d found", path, len(a), len(b))
+		return &diffAt{fmt.Sprintf("%s: %d items expected, %d found", path, len(a), len(b)), "count", ""}
 	}
 	for i := range a {
 		p := fmt.Sprintf("%s/%d", path, i)
 		x, y := a[i], b[i]
+		t := cpString(x.Title)
 		switch {
 		case !reflect.DeepEqual(x.Title, y.Title):
-			return fmt.Sprintf("%s: title %q expected, %q found", p, cpString(x.Title), cpString(y.Title))
+			return &diffAt{fmt.Sprintf("%s: title %q expected, %q found", p, t, cpString(y.Title)), "title", t}
 		case x.Page != y.Page && len(stripCtl(x.Title)) > 0: // an item without visible title is never exported; its destination is not observable
-			return fmt.Sprintf("%s: page %d expected, %d found", p, x.Page, y.Page)
+			return &diffAt{fmt.Sprintf("%s: page %d expected, %d found", p, x.Page, y.Page), "page", t}
 		case x.Bold != y.Bold:
-			return fmt.Sprintf("%s: bold %v expected, %v found", p, x.Bold, y.Bold)
+			return &diffAt{fmt.Sprintf("%s: bold %v expected, %v found", p, x.Bold, y.Bold), "bold", t}
 		case x.Italic != y.Italic:
-			return fmt.Sprintf("%s: italic %v expected, %v found", p, x.Italic, y.Italic)
+			return &diffAt{fmt.Sprintf("%s: italic %v expected, %v found", p, x.Italic, y.Italic), "italic", t}
 		case !reflect.DeepEqual(x.Color, y.Color):
-			return fmt.Sprintf("%s: colour %v expected, %v found", p, x.Color, y.Color)
+			return &diffAt{fmt.Sprintf("%s: colour %v expected, %v found", p, x.Color, y.Color), "colour", t}
 		}
-		if d := firstDiff(x.Kids, y.Kids, p); d != "" {
+		if d := firstDiffAt(x.Kids, y.Kids, p); d != nil {
 			return d
 		}
 	}
+	return nil
+}
+
+func firstDiff(a, b []bmNode, path string) string {
+	if d := firstDiffAt(a, b, path); d != nil {
+		return d.Text
+	}
 	return ""
+}
+
+func titleCount(f []bmNode, t string) int {
+	n := 0
+	for _, x := range f {
+		if cpString(x.Title) == t {
+			n++
+		}
+		n += titleCount(x.Kids, t)
+	}
+	return n
+}
+
+// diffClass is the stable class of a tree difference: the attribute and whether the item's title occurs more than once
+// in the forest (items with equal titles share the key of their named destination).
+func diffClass(forest []bmNode, d *diffAt) string {
+	if d == nil {
+		return "none"
+	}
+	if d.Attr == "count" {
+		return "count"
+	}
+	if titleCount(forest, d.Title) > 1 {
+		return d.Attr + "|duplicate-title"
+	}
+	return d.Attr + "|unique-title"
 }
 
 // ---------------------------------------------------------------- raw documents with outlines
@@ -603,8 +644,8 @@ func (w *bmWorker) roundTrip(tag string, c *bmCase, src, target string, exp []bm
 		return
 	}
 	m1 := fromJS(e1)
-	if d := firstDiff(exp, m1, ""); d != "" {
-		fail(tag+"-export-tree", "exported tree differs from the model's Export: "+d, m1)
+	if d := firstDiffAt(exp, m1, ""); d != nil {
+		fail(tag+"-export-tree|"+diffClass(c.Tree, d), "exported tree differs from the model's Export: "+d.Text, m1)
 		return
 	}
 	if !reimport {
@@ -636,7 +677,8 @@ func (w *bmWorker) roundTrip(tag string, c *bmCase, src, target string, exp []bm
 		return
 	}
 	if !reflect.DeepEqual(e1, e2) {
-		fail(tag+"-roundtrip", "Export(Import(Export(d))) differs from Export(d): "+firstDiff(m1, fromJS(e2), ""), fromJS(e2))
+		d := firstDiffAt(m1, fromJS(e2), "")
+		fail(tag+"-roundtrip|"+diffClass(c.Tree, d), "Export(Import(Export(d))) differs from Export(d): "+firstDiff(m1, fromJS(e2), ""), fromJS(e2))
 	}
 	if c.N > 2 {
 		return
@@ -672,8 +714,8 @@ func (w *bmWorker) run(c *bmCase, decoy string, fail func(key, what string, got 
 		got, perr := projOutline(d1)
 		if perr != nil {
 			fail("import-outline", "outline written by import is malformed: "+perr.Error(), nil)
-		} else if d := firstDiff(c.Tree, got, ""); d != "" {
-			fail("import-outline-tree", "outline written by import differs from the imported forest: "+d, got)
+		} else if d := firstDiffAt(c.Tree, got, ""); d != nil {
+			fail("import-outline-tree|"+diffClass(c.Tree, d), "outline written by import differs from the imported forest: "+d.Text, got)
 		}
 		w.roundTrip("imp", c, d1, decoy, c.Exp, c.ExpImp, true, fail)
 		nontrivial = len(c.Exp) > 0
@@ -752,7 +794,7 @@ func bmReplay(in, out string, workers int) {
 				}
 				for _, m := range local {
 					bad++
-					if bad <= 100 {
+					if bad <= 3000 {
 						wr.Put(m)
 					}
 				}
